@@ -446,13 +446,15 @@ func (b *Body) localMapNonNilAt(fn *ssa.Function, al *ssa.Alloc, site ssa.Instru
 		if !ok {
 			continue
 		}
-		x, nnTrue, ok := nilTestOfCond(iff.Cond)
-		if !ok {
-			continue
-		}
+		_ = iff
 		for si := range bb.Succs {
-			if edgeDominates(bb, si, site.Block()) {
-				facts = append(facts, fact{x, (si == 0) == nnTrue})
+			if !edgeDominates(bb, si, site.Block()) {
+				continue
+			}
+			for _, ef := range factsOnEdge(bb, si) {
+				if x, nnTrue, ok := nilTestOfCond(ef.V); ok {
+					facts = append(facts, fact{x, ef.True == nnTrue})
+				}
 			}
 		}
 	}
